@@ -37,7 +37,7 @@ Proof.
   - destruct i as [|i], j as [|j]; simpl; auto. rewrite IH. reflexivity.
 Qed.
 
-Lemma nth_error_nth {A} (l : list A) i x d : nth_error l i = Some x -> nth i l d = x.
+Lemma nth_of_nth_error {A} (l : list A) i x d : nth_error l i = Some x -> nth i l d = x.
 Proof. revert i; induction l as [|y l IH]; intros [|i] H; simpl in *; try discriminate; auto. congruence. Qed.
 
 Lemma nth_error_lt {A} (l : list A) i x : nth_error l i = Some x -> i < length l.
@@ -50,10 +50,10 @@ Lemma upd_same {A} i (x : A) l : nth_error l i = Some x -> upd i x l = l.
 Proof. revert i; induction l as [|y l IH]; intros [|i] H; simpl in *; try discriminate; auto.
   - congruence. - f_equal; auto. Qed.
 
-Lemma nth_error_repeat {A} (x : A) n i : i < n -> nth_error (repeat x n) i = Some x.
+Lemma ne_repeat {A} (x : A) n i : i < n -> nth_error (repeat x n) i = Some x.
 Proof. revert i; induction n; intros [|i] H; simpl; try lia; auto. apply IHn. lia. Qed.
 
-Lemma nth_error_repeat_inv {A} (x y : A) n i : nth_error (repeat x n) i = Some y -> y = x /\ i < n.
+Lemma ne_repeat_inv {A} (x y : A) n i : nth_error (repeat x n) i = Some y -> y = x /\ i < n.
 Proof. revert i; induction n; intros [|i] H; simpl in *; try discriminate.
   - split; [congruence|lia]. - apply IHn in H. split; [tauto|lia]. Qed.
 
